@@ -350,6 +350,97 @@ theorem C12_totals_false :
       dirTotal (fun _ => true) rep = 5 ∧ listedTotal (fun _ => true) rep = 1 :=
   ⟨_, C12_duplicate_witness, by decide, by decide⟩
 
+/-! ### symbolic links
+
+`FS` carries symbolic links and `realpath` follows them, so `C12_unique_partial_canonical` and
+`C12_canonical_record_is_merge` — stated through `fs.realpath` — ARE the statements for symlinked
+layouts: every key that reaches an existing file below the source dir, through whatever links, is
+canonicalised by `add_results` to the file's physical path, the spellings land on one map entry,
+and the report has one record with the merged data. Without a source dir nothing is canonicalised
+before `rewrite_paths`, and one file reached through two names is reported twice. -/
+
+/-- `/s/lib/util.c` with the links `/s/include -> lib` and `/s/compat.c -> lib/util.c` -/
+def linkFS : FS :=
+  { files := [[[115], [108, 105, 98], [117, 116, 105, 108, 46, 99]]],
+    dirs := [[[115]], [[115], [108, 105, 98]]], cwd := [[115]],
+    links := [([[115], [105, 110, 99, 108, 117, 100, 101]], [108, 105, 98]),
+              ([[115], [99, 111, 109, 112, 97, 116, 46, 99]], [108, 105, 98, 47, 117, 116, 105, 108, 46, 99])] }
+
+/-- `lib/util.c`, `include/util.c`, `compat.c`: three names of one file -/
+def linkBatch : List (Bytes × Cov) :=
+  [([108, 105, 98, 47, 117, 116, 105, 108, 46, 99], { lines := [(1, 1)] }),
+   ([105, 110, 99, 108, 117, 100, 101, 47, 117, 116, 105, 108, 46, 99], { lines := [(1, 2)] }),
+   ([99, 111, 109, 112, 97, 116, 46, 99], { lines := [(1, 3)] })]
+
+/-- With the source dir `/s`: ONE record, `lib/util.c`, with the summed count. -/
+theorem C12_symlink_one_record :
+    addThenRewrite { sourceDir := some [47, 115] } linkFS linkBatch
+      = .ok [⟨[47, 115, 47, 108, 105, 98, 47, 117, 116, 105, 108, 46, 99],
+              [108, 105, 98, 47, 117, 116, 105, 108, 46, 99], { lines := [(1, 6)] }⟩] := by
+  decide +kernel
+
+/-- … as an instance of the general theorem: the batch meets the hypotheses of
+`C12_unique_partial_canonical` (every key canonicalises, THROUGH THE LINKS, to an existing regular
+file below `/s`). -/
+theorem C12_symlink_batch_is_canonical :
+    ∀ kc ∈ linkBatch, ∃ names, names ≠ [] ∧ (∀ n ∈ names, RealName n ∧ 92 ∉ n) ∧
+      linkFS.realpath (push (render ⟨true, [[115]]⟩) kc.1) = some (render ⟨true, [[115]] ++ names⟩) ∧
+      linkFS.resolve (render ⟨true, [[115]] ++ names⟩) = some ([[115]] ++ names, .file) := by
+  intro kc hkc
+  refine ⟨[[108, 105, 98], [117, 116, 105, 108, 46, 99]], by decide, by decide, ?_, by decide +kernel⟩
+  simp only [linkBatch, List.mem_cons, List.not_mem_nil, or_false] at hkc
+  rcases hkc with rfl | rfl | rfl <;> decide +kernel
+
+/-- Full statement "one record per source FILE": no two records of a report share the absolute
+path. FALSE without a source dir (and for files that do not exist below it). -/
+def C12_one_record_per_file_stmt : Prop :=
+  ∀ (cfg : Cfg) (fs : FS) (batch : List (Bytes × Cov)) (rep : List Rec),
+    addThenRewrite cfg fs batch = .ok rep → (rep.map (·.abs)).Nodup
+
+/-- Without a source dir `add_results` keys the map by the raw strings; `rewrite_paths`
+canonicalises each key's ABSOLUTE path on its own and keeps the key's lexical form as the relative
+path: three records, one file (`/s/lib/util.c`), three names. A writer that files records under
+the absolute path (covdir, when the relative path is absolute) counts the file more than once. -/
+theorem C12_symlink_no_source_dir_witness :
+    addThenRewrite {} linkFS linkBatch
+      = .ok [⟨[47, 115, 47, 108, 105, 98, 47, 117, 116, 105, 108, 46, 99], [108, 105, 98, 47, 117, 116, 105, 108, 46, 99], { lines := [(1, 1)] }⟩,
+             ⟨[47, 115, 47, 108, 105, 98, 47, 117, 116, 105, 108, 46, 99], [105, 110, 99, 108, 117, 100, 101, 47, 117, 116, 105, 108, 46, 99], { lines := [(1, 2)] }⟩,
+             ⟨[47, 115, 47, 108, 105, 98, 47, 117, 116, 105, 108, 46, 99], [99, 111, 109, 112, 97, 116, 46, 99], { lines := [(1, 3)] }⟩] := by
+  decide +kernel
+
+theorem C12_one_record_per_file_false : ¬ C12_one_record_per_file_stmt := by
+  intro h
+  have := h _ _ _ _ C12_symlink_no_source_dir_witness
+  revert this
+  decide
+
+/-- Under the canonical guard (links allowed) there is one record per physical file: the reported
+paths are pairwise distinct, and the record named `names` carries the merge of ALL batch entries
+whose key canonicalises — through whatever links — to the file `S/names`, so no other record
+holds data of that file. -/
+theorem C12_one_record_per_file_partial (cfg : Cfg) (fs : FS) (sn : List Bytes)
+    (batch : List (Bytes × Cov)) (rep : List Rec)
+    (hS : cfg.sourceDir = some (render ⟨true, sn⟩)) (hM : cfg.mapping = none)
+    (hP : cfg.prefixDir = none ∨ cfg.prefixDir = some (render ⟨true, sn⟩))
+    (hsn : ∀ n ∈ sn, RealName n ∧ 92 ∉ n)
+    (hex : ∀ kc ∈ batch, ∃ names, names ≠ [] ∧ (∀ n ∈ names, RealName n ∧ 92 ∉ n) ∧
+      fs.realpath (push (render ⟨true, sn⟩) kc.1) = some (render ⟨true, sn ++ names⟩) ∧
+      fs.resolve (render ⟨true, sn ++ names⟩) = some (sn ++ names, .file))
+    (h : addThenRewrite cfg fs batch = .ok rep) :
+    (rep.map (·.rel)).Nodup ∧ ∀ r ∈ rep, ∃ names, names ≠ [] ∧ r.rel = join names ∧
+      some r.cov = foldInto none
+        ((batch.filter fun kc => addCanon fs cfg.sourceDir kc.1 = render ⟨true, sn ++ names⟩).map (·.2)) := by
+  refine ⟨C12_unique_partial_canonical cfg fs sn batch rep hS hM hP hsn hex h, ?_⟩
+  intro r hr
+  obtain ⟨names, hne, _, e1, e2⟩ := C12_canonical_record_is_merge cfg fs sn batch rep hS hM hP hsn hex h r hr
+  exact ⟨names, hne, e1, e2⟩
+
+/-- the general theorems applied to the symlinked batch -/
+example : ∀ rep, addThenRewrite { sourceDir := some (render ⟨true, [[115]]⟩) } linkFS linkBatch = .ok rep →
+    (rep.map (·.rel)).Nodup :=
+  fun rep h => C12_unique_partial_canonical _ linkFS [[115]] linkBatch rep rfl rfl (Or.inl rfl) (by decide)
+    C12_symlink_batch_is_canonical h
+
 /-! ### non-vacuity -/
 
 /-- guard 1 on a concrete map: two clean keys, reported under themselves -/
